@@ -1,43 +1,193 @@
 /-
-C02 — tie of the BFT-parameter part of `Model/BFT.lean` to the Go source: the two threshold guards
-and the prevote-threshold expression of `API.SetBFTParameters` (pkg/consensus/liskbft/api.go) are
-REGENERATED from the Go source on every run by tools/fngen (`LiskVerif/Gen/Fns.lean`,
+C02 — tie of the BFT-parameter part of `Model/BFT.lean` to the Go source: the weight loop, the two
+threshold guards and the prevote-threshold expression of `API.SetBFTParameters`
+(pkg/consensus/liskbft/api.go) are REGENERATED from the Go source on every run by tools/fngen
+(`LiskVerif/Gen/Fns.lean`: `Gen.aggregateBFTWeightInit`, `Gen.aggregateBFTWeightStep`,
 `Gen.setBFTParametersGuards`, `Gen.prevoteThresholdOf`) with the wrap-around of Go's `uint64`
 arithmetic made explicit (`% 2^64`).
 
-Findings. The guards never wrap (`w/3 + 1 < 2^64` for every `uint64` `w`), so they are exactly the
-guards of `BFT.setParams`. The prevote threshold `aggregateBFTWeight*2/3 + 1` is the mathematical
-`⌊2w/3⌋+1` of the model only for `w < 2^63`: for `w ≥ 2^63` the product wraps
-(`C02_gen_prevote_threshold_wraps`: at `w = 2^63` the Go expression yields 1). The model and the
-specification (`BFTSpec.prevoteThreshold`) assume aggregate weights below `2^63`.
+History. The original code summed the weights without overflow check and computed the prevote
+threshold as `aggregateBFTWeight*2/3 + 1`: for aggregate weight `w ≥ 2^63` the product wraps
+(`C02_gen_prevote_threshold_wraps` about the hand-transcribed original expression
+`C02origPrevoteThresholdOf`: at `w = 2^63` it yields 1), and weight vectors whose sum is `≥ 2^64`
+were accepted with the wrapped sum. Fix `fixes/C02-bft-weight-overflow.patch`: the loop rejects an
+overflowing sum and the threshold is `w/3*2 + w%3*2/3 + 1`. The theorems below are about the code
+regenerated from the FIXED source: the prevote threshold is `⌊2w/3⌋+1` for every `uint64` `w`
+(`C02_gen_prevote_threshold_eq`), the loop fails exactly when `BFT.setParams` reports a weight error
+(`C02_gen_weight_loop_eq`), the guards are the guards of `BFT.setParams` (`C02_gen_guards_eq`).
+If the overflow guard is removed from the Go loop, `C02_gen_weight_step_eq` stops compiling.
 -/
 import LiskVerif.Model.BFT
 import LiskVerif.Gen.Fns
 
 open LiskVerif LiskVerif.BFT
 
-/-- The regenerated prevote-threshold expression is `⌊2w/3⌋+1`, the value used by `BFT.setParams`
-and `BFTSpec.prevoteThreshold`, for every aggregate weight below `2^63`. -/
-theorem C02_gen_prevote_threshold_eq_partial (w : Nat) (hw : w < 2 ^ 63) :
-    Gen.prevoteThresholdOf w = w * 2 / 3 + 1 := by
+/-! ### the prevote threshold -/
+
+/-- **The regenerated prevote-threshold expression is `⌊2w/3⌋+1`** — the value used by
+`BFT.setParams` and `BFTSpec.prevoteThreshold` — for every `uint64` aggregate weight. -/
+theorem C02_gen_prevote_threshold_eq : ∀ w, w < 2 ^ 64 → Gen.prevoteThresholdOf w = w * 2 / 3 + 1 := by
+  intro w hw
   unfold Gen.prevoteThresholdOf
-  have h1 : w * 2 % 18446744073709551616 = w * 2 := Nat.mod_eq_of_lt (by omega)
-  rw [h1]
-  exact Nat.mod_eq_of_lt (by omega)
+  have h1 : w / 3 * 2 % 18446744073709551616 = w / 3 * 2 := Nat.mod_eq_of_lt (by omega)
+  have h2 : w % 3 * 2 % 18446744073709551616 = w % 3 * 2 := Nat.mod_eq_of_lt (by omega)
+  rw [h1, h2]
+  have h3 : (w / 3 * 2 + w % 3 * 2 / 3) % 18446744073709551616 = w / 3 * 2 + w % 3 * 2 / 3 :=
+    Nat.mod_eq_of_lt (by omega)
+  rw [h3, Nat.mod_eq_of_lt (by omega)]
+  omega
 
-/-- The unconditional statement (all `uint64` weights); `C02_gen_prevote_threshold_eq_partial` proves it
-for `w < 2^63`, what is missing is false: … -/
-def C02_gen_prevote_threshold_eq_Statement : Prop :=
-  ∀ w, w < 2 ^ 64 → Gen.prevoteThresholdOf w = w * 2 / 3 + 1
+/-- hand-transcribed copy of the ORIGINAL expression `aggregateBFTWeight*2/3 + 1` in `uint64`
+arithmetic (what tools/fngen generated from the unfixed source) -/
+def C02origPrevoteThresholdOf (aggregateBFTWeight : Nat) : Nat :=
+  (((((aggregateBFTWeight * 2) % 18446744073709551616) / 3) + 1) % 18446744073709551616)
 
-/-- … with aggregate weight `2^63` the `uint64` product `aggregateBFTWeight*2` wraps to 0 and
-`SetBFTParameters` stores prevote threshold 1 (instead of `⌊2^64/3⌋+1`). -/
+/-- The original expression wraps: with aggregate weight `2^63` the `uint64` product
+`aggregateBFTWeight*2` is 0 and the stored prevote threshold was 1 instead of `⌊2^64/3⌋+1`; it agrees
+with `⌊2w/3⌋+1` exactly for `w < 2^63`. The regenerated (fixed) expression is right at `2^63`. -/
 theorem C02_gen_prevote_threshold_wraps :
-    Gen.prevoteThresholdOf (2 ^ 63) = 1 ∧ ¬ C02_gen_prevote_threshold_eq_Statement := by
-  refine ⟨by decide +kernel, fun h => ?_⟩
-  have := h (2 ^ 63) (by decide)
-  revert this
-  decide +kernel
+    C02origPrevoteThresholdOf (2 ^ 63) = 1 ∧ (2 ^ 63 * 2 / 3 + 1 = 6148914691236517206) ∧
+    Gen.prevoteThresholdOf (2 ^ 63) = 6148914691236517206 ∧
+    (∀ w, w < 2 ^ 64 → (C02origPrevoteThresholdOf w = w * 2 / 3 + 1 ↔ w < 2 ^ 63)) := by
+  refine ⟨by decide +kernel, by decide +kernel, by decide +kernel, ?_⟩
+  intro w hw
+  unfold C02origPrevoteThresholdOf
+  by_cases hlt : w < 2 ^ 63
+  · have h1 : w * 2 % 18446744073709551616 = w * 2 := Nat.mod_eq_of_lt (by omega)
+    rw [h1, Nat.mod_eq_of_lt (by omega)]
+    exact ⟨fun _ => hlt, fun _ => rfl⟩
+  · have h1 : w * 2 % 18446744073709551616 = w * 2 - 18446744073709551616 := by omega
+    rw [h1, Nat.mod_eq_of_lt (by omega)]
+    constructor
+    · intro h; omega
+    · intro h; omega
+
+/-! ### the weight loop -/
+
+/-- the regenerated loop body in closed form (`uint64` accumulator and weight): guard 1 = the weight
+is 0, guard 2 = the sum would overflow, otherwise the weight is added -/
+theorem C02_gen_weight_step_eq (acc w : Nat) (ha : acc < 2 ^ 64) (hw : w < 2 ^ 64) :
+    Gen.aggregateBFTWeightStep acc w =
+      if w = 0 then (1, acc) else if acc + w ≥ 2 ^ 64 then (2, acc) else (0, acc + w) := by
+  unfold Gen.aggregateBFTWeightStep
+  by_cases h0 : w = 0
+  · simp [h0]
+  · have h0' : ¬ w ≤ 0 := by omega
+    simp only [h0, h0', decide_false, Bool.false_eq_true, ↓reduceIte, decide_eq_true_eq]
+    by_cases h1 : acc + w ≥ 2 ^ 64
+    · have : (acc + w) % 18446744073709551616 < acc := by omega
+      simp [this, h1]
+    · have h2 : (acc + w) % 18446744073709551616 = acc + w := by omega
+      have : ¬ (acc + w < acc) := by omega
+      simp [h2, this, h1]
+
+/-- the loop `for _, validator := range validators { … }` run with the regenerated body on the list of
+weights: `.error i` = guard `i` returned an error, `.ok w` = final `aggregateBFTWeight` -/
+def C02genWeightLoop : List Nat → Nat → Except Nat Nat
+  | [], acc => .ok acc
+  | w :: r, acc =>
+    match Gen.aggregateBFTWeightStep acc w with
+    | (0, acc') => C02genWeightLoop r acc'
+    | (i, _) => .error i
+
+private theorem loop_spec : ∀ (ws : List Nat) (acc : Nat), acc < 2 ^ 64 → (∀ w ∈ ws, w < 2 ^ 64) →
+    (∀ a, C02genWeightLoop ws acc = .ok a ↔ ((∀ w ∈ ws, w ≠ 0) ∧ acc + ws.sum < 2 ^ 64 ∧ a = acc + ws.sum)) ∧
+    (∀ i, C02genWeightLoop ws acc = .error i → i = 1 ∨ i = 2) := by
+  intro ws
+  induction ws with
+  | nil =>
+    intro acc _ _
+    refine ⟨fun a => ?_, fun i h => by simp [C02genWeightLoop] at h⟩
+    simp only [C02genWeightLoop, List.sum_nil, Nat.add_zero, Except.ok.injEq]
+    constructor
+    · intro h; subst h; exact ⟨by simp, by assumption, rfl⟩
+    · intro h; exact h.2.2.symm
+  | cons w r ih =>
+    intro acc ha hws
+    have hw := hws w List.mem_cons_self
+    have hr : ∀ x ∈ r, x < 2 ^ 64 := fun x hx => hws x (List.mem_cons_of_mem _ hx)
+    unfold C02genWeightLoop
+    rw [C02_gen_weight_step_eq acc w ha hw]
+    by_cases h0 : w = 0
+    · simp only [h0, ↓reduceIte]
+      refine ⟨fun a => ⟨fun h => (by cases h), fun h => absurd rfl (h.1 0 List.mem_cons_self)⟩, ?_⟩
+      intro i h; injection h with h; exact Or.inl h.symm
+    · simp only [h0, ↓reduceIte]
+      by_cases h1 : acc + w ≥ 2 ^ 64
+      · simp only [h1, ↓reduceIte]
+        refine ⟨fun a => ⟨fun h => (by cases h), fun h => ?_⟩, ?_⟩
+        · have := h.2.1; simp only [List.sum_cons] at this; omega
+        · intro i h; injection h with h; exact Or.inr h.symm
+      · simp only [h1, ↓reduceIte]
+        have ih' := ih (acc + w) (by omega) hr
+        refine ⟨fun a => ?_, ih'.2⟩
+        rw [ih'.1 a]
+        simp only [List.sum_cons, List.mem_cons, forall_eq_or_imp]
+        constructor
+        · rintro ⟨h2, h3, h4⟩; exact ⟨⟨h0, h2⟩, by omega, by omega⟩
+        · rintro ⟨⟨_, h2⟩, h3, h4⟩; exact ⟨h2, by omega, by omega⟩
+
+/-- **The regenerated weight loop vs `BFT.setParams`.** For `uint64` weights: the loop ends with
+`aggregateBFTWeight = w` iff no weight is 0, the sum fits into a `uint64` and `w` is the sum; it fails
+(with guard 1 or 2 only) iff `BFT.setParams` — for a validator list within the batch size — reports
+the weight or the weight-overflow error. -/
+theorem C02_gen_weight_loop_eq (s : State) (pc ct : Nat) (vs : List Validator)
+    (hlen : vs.length ≤ s.batchSize) (hu : ∀ v ∈ vs, v.weight < 2 ^ 64) :
+    (∀ w, C02genWeightLoop (vs.map (·.weight)) Gen.aggregateBFTWeightInit = .ok w ↔
+      (vs.any (·.weight = 0) = false ∧ (vs.map (·.weight)).sum < 2 ^ 64 ∧ w = (vs.map (·.weight)).sum)) ∧
+    ((∃ i, C02genWeightLoop (vs.map (·.weight)) Gen.aggregateBFTWeightInit = .error i) ↔
+      (setParams s pc ct vs = .error .weight ∨ setParams s pc ct vs = .error .weightOverflow)) ∧
+    (∀ i, C02genWeightLoop (vs.map (·.weight)) Gen.aggregateBFTWeightInit = .error i → i = 1 ∨ i = 2) := by
+  have hws : ∀ w ∈ vs.map (·.weight), w < 2 ^ 64 := by
+    intro w hw
+    obtain ⟨v, hv, rfl⟩ := List.mem_map.mp hw
+    exact hu v hv
+  have hspec := loop_spec (vs.map (·.weight)) Gen.aggregateBFTWeightInit (by decide) hws
+  have hzero : (∀ w ∈ vs.map (·.weight), w ≠ 0) ↔ vs.any (·.weight = 0) = false := by
+    rw [← Bool.not_eq_true, List.any_eq_true]
+    constructor
+    · rintro h ⟨v, hv, hz⟩
+      exact h v.weight (List.mem_map.mpr ⟨v, hv, rfl⟩) (by simpa using hz)
+    · intro h w hw hz
+      obtain ⟨v, hv, rfl⟩ := List.mem_map.mp hw
+      exact h ⟨v, hv, by simpa using hz⟩
+  have hinit : Gen.aggregateBFTWeightInit = 0 := rfl
+  have hok : ∀ w, C02genWeightLoop (vs.map (·.weight)) Gen.aggregateBFTWeightInit = .ok w ↔
+      (vs.any (·.weight = 0) = false ∧ (vs.map (·.weight)).sum < 2 ^ 64 ∧ w = (vs.map (·.weight)).sum) := by
+    intro w
+    rw [hspec.1 w, hzero, hinit, Nat.zero_add]
+  refine ⟨hok, ?_, hspec.2⟩
+  have hcases : (∃ i, C02genWeightLoop (vs.map (·.weight)) Gen.aggregateBFTWeightInit = .error i) ↔
+      ¬ (vs.any (·.weight = 0) = false ∧ (vs.map (·.weight)).sum < 2 ^ 64) := by
+    cases hl : C02genWeightLoop (vs.map (·.weight)) Gen.aggregateBFTWeightInit with
+    | ok w =>
+      have := (hok w).mp hl
+      constructor
+      · rintro ⟨i, hi⟩; cases hi
+      · intro hn; exact absurd ⟨this.1, this.2.1⟩ hn
+    | error i =>
+      constructor
+      · intro _ hn
+        have := (hok _).mpr ⟨hn.1, hn.2, rfl⟩
+        rw [hl] at this; cases this
+      · intro _; exact ⟨i, rfl⟩
+  rw [hcases]
+  unfold setParams
+  rw [if_neg (by omega)]
+  cases hany : vs.any (·.weight = 0)
+  · simp only [Bool.false_eq_true, ↓reduceIte, true_and, u64]
+    by_cases hsum : (vs.map (·.weight)).sum ≥ 18446744073709551616
+    · rw [if_pos hsum]
+      simp; omega
+    · rw [if_neg hsum]
+      constructor
+      · intro hn; omega
+      · intro hc
+        exfalso
+        rcases hc with hc | hc <;> (repeat' split at hc) <;> cases hc
+  · simp
+
+/-! ### the threshold guards -/
 
 /-- The regenerated guards, for every `uint64` aggregate weight: both pass iff
 `⌊w/3⌋+1 ≤ threshold ≤ w` for the precommit and the certificate threshold. -/
@@ -59,12 +209,13 @@ private theorem ite_ok_exists {c : Prop} [Decidable c] {a b : State} :
   split <;> exact ⟨_, rfl⟩
 
 /-- **The generated guards are the guards inside `BFT.setParams`.** For a validator list that passes
-the two earlier checks of `SetBFTParameters` (size at most the batch size, no zero weight) and whose
-aggregate weight is a `uint64`: `setParams` fails with the precommit-threshold or the
-certificate-threshold error exactly when the regenerated guards do not both pass — and which of the
-two it is, is decided by the first regenerated guard alone (`Gen.setBFTParametersGuards w pc w`
-switches the second guard off); otherwise it succeeds and installs parameters whose prevote
-threshold is the regenerated expression (for `w < 2^63`, see `C02_gen_params_prevote`). -/
+the earlier checks of `SetBFTParameters` (size at most the batch size, no zero weight, aggregate weight
+a `uint64` — i.e. the regenerated weight loop ends with `.ok` of the sum, `C02_gen_weight_loop_eq`):
+`setParams` fails with the precommit-threshold or the certificate-threshold error exactly when the
+regenerated guards do not both pass — and which of the two it is, is decided by the first regenerated
+guard alone (`Gen.setBFTParametersGuards w pc w` switches the second guard off); otherwise it succeeds
+and installs parameters whose prevote threshold is the regenerated expression
+(`C02_gen_params_prevote`). -/
 theorem C02_gen_guards_eq (s : State) (pc ct : Nat) (vs : List Validator)
     (hlen : vs.length ≤ s.batchSize) (hpos : vs.any (·.weight = 0) = false)
     (hw : (vs.map (·.weight)).sum < 2 ^ 64) :
@@ -81,6 +232,7 @@ theorem C02_gen_guards_eq (s : State) (pc ct : Nat) (vs : List Validator)
   unfold setParams
   rw [if_neg (by omega), hpos]
   simp only [Bool.false_eq_true, ↓reduceIte]
+  rw [if_neg (by unfold u64; omega)]
   by_cases h1 : (vs.map (·.weight)).sum / 3 + 1 > pc ∨ pc > (vs.map (·.weight)).sum
   · rw [if_pos h1]
     simp [h1]
@@ -104,18 +256,20 @@ theorem C02_gen_guards_eq (s : State) (pc ct : Nat) (vs : List Validator)
         · intro _; exact ⟨h1, h2⟩
 
 /-- the parameters installed by `BFT.setParams` on the genesis state carry the regenerated prevote
-threshold (aggregate weight below `2^63`) -/
+threshold — for every weight vector that `setParams` accepts -/
 theorem C02_gen_params_prevote (bs g pc ct : Nat) (vs : List Validator) (s' : State)
-    (hw : (vs.map (·.weight)).sum < 2 ^ 63)
     (h : setParams (initGenesis bs g) pc ct vs = .ok s') :
     ∃ p, getParams s' (g + 1) = some p ∧ p.prevoteThreshold = Gen.prevoteThresholdOf (vs.map (·.weight)).sum := by
-  rw [C02_gen_prevote_threshold_eq_partial _ hw]
   unfold setParams at h
   split at h
   · cases h
   · split at h
     · cases h
-    · simp only at h
+    · split at h
+      · cases h
+      rename_i hsum
+      rw [C02_gen_prevote_threshold_eq _ (by unfold u64 at hsum; omega)]
+      simp only at h
       split at h
       · cases h
       · split at h
@@ -128,10 +282,23 @@ theorem C02_gen_params_prevote (bs g pc ct : Nat) (vs : List Validator) (s' : St
 
 /-! ### non-vacuity -/
 
-example : Gen.prevoteThresholdOf 4 = 3 ∧ Gen.prevoteThresholdOf 103 = 69 := by decide +kernel
+example : Gen.prevoteThresholdOf 4 = 3 ∧ Gen.prevoteThresholdOf 103 = 69 ∧
+    Gen.prevoteThresholdOf (2 ^ 64 - 1) = 12297829382473034411 := by decide +kernel
 
 example : Gen.setBFTParametersGuards 4 2 2 = true ∧ Gen.setBFTParametersGuards 4 1 2 = false ∧
     Gen.setBFTParametersGuards 4 2 5 = false ∧ Gen.setBFTParametersGuards 4 4 4 = true := by decide +kernel
+
+/-- the weight loop: accepted, zero weight, overflow (2^63 + 2^63 + …), overflow met before a zero weight -/
+example : C02genWeightLoop [1, 2, 3] 0 = .ok 6 ∧ C02genWeightLoop [1, 0, 3] 0 = .error 1 ∧
+    C02genWeightLoop [2 ^ 63, 2 ^ 63 + 3] 0 = .error 2 ∧ C02genWeightLoop [2 ^ 63, 2 ^ 63 - 1] 0 = .ok (2 ^ 64 - 1) ∧
+    C02genWeightLoop [2 ^ 64 - 1, 1, 0] 0 = .error 2 :=
+  ⟨rfl, rfl, rfl, rfl, rfl⟩
+
+/-- instance of `C02_gen_weight_loop_eq`: the weight vector of the demonstration test is rejected -/
+example : setParams (initGenesis 4 0) 2 2 [⟨[1], 2 ^ 63⟩, ⟨[2], 2 ^ 63 + 3⟩] = .error .weight ∨
+    setParams (initGenesis 4 0) 2 2 [⟨[1], 2 ^ 63⟩, ⟨[2], 2 ^ 63 + 3⟩] = .error .weightOverflow :=
+  ((C02_gen_weight_loop_eq (initGenesis 4 0) 2 2 [⟨[1], 2 ^ 63⟩, ⟨[2], 2 ^ 63 + 3⟩] (by decide)
+    (by decide +kernel)).2.1).mp ⟨2, rfl⟩
 
 /-- instance of `C02_gen_guards_eq`: three validators of weight 1, thresholds 1 (too low) and 2 -/
 example : setParams (initGenesis 3 0) 1 2 [⟨[1], 1⟩, ⟨[2], 1⟩, ⟨[3], 1⟩] = .error .precommitThreshold :=
@@ -141,3 +308,13 @@ example : setParams (initGenesis 3 0) 1 2 [⟨[1], 1⟩, ⟨[2], 1⟩, ⟨[3], 1
 example : ∃ s', setParams (initGenesis 3 0) 2 2 [⟨[1], 1⟩, ⟨[2], 1⟩, ⟨[3], 1⟩] = .ok s' :=
   ((C02_gen_guards_eq (initGenesis 3 0) 2 2 [⟨[1], 1⟩, ⟨[2], 1⟩, ⟨[3], 1⟩] (by decide) (by decide)
     (by decide)).2.2).mp (by decide +kernel)
+
+/-- one validator of weight 2^63 (the first demonstration test): accepted, prevote threshold ⌊2^64/3⌋+1 -/
+example : ∃ s' p, setParams (initGenesis 4 0) (2 ^ 63 / 3 + 1) (2 ^ 63 / 3 + 1) [⟨[1], 2 ^ 63⟩] = .ok s' ∧
+    getParams s' 1 = some p ∧ p.prevoteThreshold = 6148914691236517206 := by
+  obtain ⟨s', hs⟩ := ((C02_gen_guards_eq (initGenesis 4 0) (2 ^ 63 / 3 + 1) (2 ^ 63 / 3 + 1) [⟨[1], 2 ^ 63⟩]
+    (by decide) (by decide +kernel) (by decide +kernel)).2.2).mp (by decide +kernel)
+  obtain ⟨p, hp1, hp2⟩ := C02_gen_params_prevote 4 0 _ _ _ s' hs
+  refine ⟨s', p, hs, hp1, ?_⟩
+  rw [hp2]
+  decide +kernel
